@@ -169,14 +169,22 @@ Theorem C15_closed_detect_aliases (tm : name) (ad : bool) (m : model) :
 Proof. exact (closed_detect_aliases tm ad m). Qed.
 Print Assumptions C15_closed_detect_aliases.
 
+(* the value-closedness hypothesis is a decidable check; `./check C15` evaluates it inside coqc on
+   EVERY generated pre-simplification model (obligation hypothesis:vals_closedb-holds-of-every-
+   generated-model), so for the generated models it is tied, not assumed *)
+Theorem C15_vals_closed_checked (tm : name) (m : model) :
+  vals_closedb m = true -> vals_closed tm m.
+Proof. exact (vals_closedb_sound tm m). Qed.
+Print Assumptions C15_vals_closed_checked.
+
 (* composition over _simplify_once (any subset of the modelled options).  In `passes_cl tm o` ALL
    SEVEN passes are now proved from carve-out hypotheses stated on the model reaching each pass:
    none for eliminate_constant_assignments / replace_parameter_values; values closed + acyclic +
    converged for replace_parameter/constant_expressions and replace_constant_values; no eliminable
    state + acyclic + converged for the eliminable pass; the alias invariant, declared alias symbols
    and no redundant alias (H_da15) for detect_aliases.  The name keeps `_partial` because
-   (i) `vals_closed` (parameter / constant values only mention declared symbols) is a hypothesis at
-   each value pass, not yet an invariant established by the earlier passes, and (ii) the
+   (i) `vals_closed` is tied for the GENERATED model (C15_vals_closed_checked) but its preservation by
+   each pass is not proved, so it stays a hypothesis at each value pass after the first, and (ii) the
    eliminable-STATES path (eliminate_vars2) is excluded by `no_elim_state` *)
 Theorem C15_closed_simplify_once_partial (tm : name) (o : options) (m : model) :
   run_ok (passes_cl tm o) m -> closed tm m -> failed (simplify_once o m) = false ->
